@@ -8,6 +8,7 @@ mod gen_doc;
 mod int;
 mod vdm;
 mod http;
+mod locks;
 mod obs;
 mod prng;
 mod proto;
@@ -93,6 +94,7 @@ fn main() {
         "c07" => int::run(&args, &mut model, "C07"),
         "c20" => http::run(&args, &mut model),
         "c16" => timer::run(&args, &mut model),
+        "c17" => locks::run(&args, &mut model),
         f => {
             eprintln!("unknown family {}", f);
             std::process::exit(2);
